@@ -110,6 +110,10 @@ static int apply(const char *rt, int v, fix_t *F, char *s1, char *s2, char *s3, 
         V(18, "B-Mtype", 11, F->B.Mtype = SLU_TRL)
         V(19, "X-lda", 12, Xs->lda = F->n - 1) V(20, "X-ncol", 12, F->X.ncol = 1) V(21, "X-Stype", 12, F->X.Stype = SLU_NC) V(22, "X-Dtype", 12, F->X.Dtype = (SLU_DT == SLU_D ? SLU_S : SLU_D))
         V(23, "X-ncol<0", 12, F->X.ncol = -1)
+        /* both scale vectors in use (equed = BOTH): one or both illegal; the first offender is R (argument 7) */
+        V(24, "BOTH:R<=0,C<=0", 7, (F->opt.fact = FACTORED, *equed = BOTH, F->R[F->n / 2] = (real_t)0, F->C[F->n / 3] = (real_t)-1))
+        V(25, "BOTH:C<=0", 8, (F->opt.fact = FACTORED, *equed = BOTH, F->C[0] = (real_t)0))
+        V(26, "BOTH:R<=0", 7, (F->opt.fact = FACTORED, *equed = BOTH, F->R[F->n - 1] = (real_t)-2))
         return 0;
     }
     if (!strcmp(rt, "gstrs")) {
